@@ -497,6 +497,19 @@ def buildOp (args : List String) : String :=
     s!"ok {al} {bytesToHex bytes} {if es.isEmpty then "-" else es}"
   | _ => "bad-op"
 
+/-- vtcache <hash:hexvt,...>: `flatcc_builder_create_cached_vtable` called directly on a fresh builder, one call per
+item; prints the reference each call returned (equal references = the cached vtable was reused) -/
+def vtcacheOp (args : List String) : String :=
+  open Flatcc.Builder in
+  match args with
+  | [items] =>
+    let (_, outs) := (items.splitOn ",").foldl (fun (acc : BS × List String) it =>
+      match it.splitOn ":" with
+      | [h, hex] => let (s', r) := createCachedVtable acc.1 (hexToBytes hex) h.toNat!; (s', acc.2 ++ [toString r])
+      | _ => (acc.1, acc.2 ++ ["bad"])) (initBS, [])
+    ",".intercalate outs
+  | _ => "bad-op"
+
 def allocOp (args : List String) : String :=
   match args with
   | [hint, len0, reqs] =>
@@ -630,6 +643,7 @@ def step (line : String) : String :=
   | "chararrp" :: args => chararrOp "chararrp" args
   | "jscan" :: args => jscanOp args
   | "alloc" :: args => allocOp args
+  | "vtcache" :: args => vtcacheOp args
   | "sgraph" :: args => sgraphOp args
   | "refmap" :: args => refmapOp args
   | "ident" :: args => identOp args
